@@ -5,7 +5,9 @@ import (
 	"bufio"
 	"fmt"
 	"io"
+	"os"
 	"os/exec"
+	"sync/atomic"
 	"strconv"
 	"strings"
 	"sync"
@@ -161,7 +163,12 @@ func (s *Solver) Check(asserts []*term.T, wantModel bool) (Result, *term.Model) 
 	sc := term.Render(asserts)
 	t0 := time.Now()
 	defer func() { s.Stats.Time += time.Since(t0) }()
-	lines, err := s.roundTrip("(push 1)\n" + sc.Text + "(check-sat)\n")
+	open := "(push 1)\n"
+	if s.Kind == Z3 || s.Kind == Z3New {
+		// z3 switches to a much weaker incremental core after push; start every query from a clean state instead
+		open = "(reset)\n(set-option :print-success false)\n(set-option :produce-models true)\n"
+	}
+	lines, err := s.roundTrip(open + sc.Text + "(check-sat)\n")
 	if err != nil {
 		s.Stats.Unknown++
 		s.Stats.Errors++
@@ -195,7 +202,7 @@ func (s *Solver) Check(asserts []*term.T, wantModel bool) (Result, *term.Model) 
 			res = Unknown
 		}
 	}
-	if s.cmd != nil {
+	if s.cmd != nil && !(s.Kind == Z3 || s.Kind == Z3New) {
 		if _, err := s.roundTrip("(pop 1)\n"); err != nil {
 			s.Stats.Errors++
 		}
@@ -387,9 +394,33 @@ func NewPortfolio(timeoutMs int, kinds ...Kind) *Portfolio {
 	return p
 }
 
+var SlowLog = os.Getenv("VERIF_SLOWLOG")
+var slowN int32
+
 func (p *Portfolio) Check(asserts []*term.T, wantModel bool) (Result, *term.Model) {
 	for _, s := range p.Solvers {
+		t0 := time.Now()
 		r, m := s.Check(asserts, wantModel)
+		if SlowLog != "" && time.Since(t0) > 500*time.Millisecond {
+			n := atomic.AddInt32(&slowN, 1)
+			os.WriteFile(fmt.Sprintf("%s/slow-%03d-%s-%s-%dms.smt2", SlowLog, n, s.Kind, r, time.Since(t0).Milliseconds()), []byte(term.Render(asserts).Text+"(check-sat)\n"), 0o644)
+		}
+		if r == Sat && m != nil {
+			// validate the model against the query (guards against solver or parser errors)
+			ev := term.NewEvaluator(m.Clone())
+			for _, a := range asserts {
+				if ev.Eval(a) == 0 {
+					s.Stats.Errors++
+					s.LastErr = "model does not satisfy query"
+					if SlowLog != "" {
+						n := atomic.AddInt32(&slowN, 1)
+						os.WriteFile(fmt.Sprintf("%s/badmodel-%03d-%s.smt2", SlowLog, n, s.Kind), []byte(term.Render(asserts).Text+"(check-sat)\n; failing: "+a.String()+"\n"+fmt.Sprintf("; model %v\n", m.Syms)), 0o644)
+					}
+					r = Unknown
+					break
+				}
+			}
+		}
 		if r != Unknown {
 			return r, m
 		}
